@@ -100,3 +100,9 @@ CHECKS["C15"] = (
     "Held on the inputs observed: for 223 codec items (every message class, every extension class per context, unknown extension types) generated well-formed values round-trip field-wise and byte-wise, oversize fields make write() raise instead of truncating, and for every proper prefix, trailing bytes outside/inside each length-delimited span (lengths bumped), byte +-1/00/ff and adjacent swaps the parser raises a decode-class error or re-serialises to exactly the bytes it consumed.",
     "Self-consistency oracle (no independent wire-format reference: symmetric write/parse deviations are C07's subject); 2^24-byte fields not generated; long encodings perturbed on a deterministic sample.",
     "DESIGN.md section 3, C15")
+CHECKS["C08"] = (
+    "exploration",
+    "runtime monitoring: key-holding mutating peer with structure-aware mutation operators and record-level attacks; exception classifier, logical work meter (sys.monitoring PY_START budget + driver steps), memory meters (tracemalloc / RSS high-water), post-state and alert-on-wire monitors on the pristine victim",
+    "Held on the inputs observed: for every scenario and both victim roles each outgoing handshake / control message of the adversary is replaced before record protection by mutants (outer and discovered inner length fields -> 0/-1/+1/max, emptied / shrunk vectors, truncation, extension, extension-level hello edits, unknown enum values, DER edits, compressed-certificate bombs, byte edits), and record-level junk (oversized, empty, unknown-type, SSLv2-framed records, alert fragments, floods of empty / warning / CCS records) is injected at several points; the victim always ends with success or a documented exception, within the work and memory budgets, closed and non-resumable, with a fatal alert on the wire for self-diagnosed failures.",
+    "Mutants are produced by harness operators (sampling of 'all byte strings'); work is measured in Python function starts, not time; memory bound 64 MiB + 64 x bytes sent.",
+    "DESIGN.md section 3, C08")
